@@ -326,7 +326,7 @@ func c06Lifetime(c *ev.Ctx, tbs []byte) {
 }
 
 func checkC06(c *ev.Ctx) {
-	c.Rule("the harness owns the device RSA key, so for any target encoded message EM it computes sig = EM^d mod N: device key sizes (quick 1024,2048; thorough +1032,1536,3072,4096) x hash{SHA-1,256,384,512} x identifier form{NULL,no NULL} x every byte position of EM x 7 replacement values; structural variants (shortened/short padding, 00 inside padding, missing separator, shifted T, foreign identifier, wrong digest, block types 00/02, sig+N); single-bit flips of signature and body (quick: 1024-bit key; thorough: 2048 too); every signature-algorithm label 0..16,99,-1 x EM hash; chain relations {pool root (2 roots), foreign CA, self-signed, expired, not yet valid, missing intermediate}; device key types {RSA, P-256, Ed25519}; RSA public exponents {3,5,17,257,65539} (those invertible for the fixture primes) on the 1024-bit modulus (thorough: 2048 too), interleaved with the 65537 cases; one long-lived Attestor used before and after a device certificate's expiry / start of validity (real time, 5.5 s). Oracle: independent predicate on sig^e mod N. non-trivial = accepted attestation; distinct by (size,label,chain,variant)")
+	c.Rule("the harness owns the device RSA key, so for any target encoded message EM it computes sig = EM^d mod N: device key sizes (quick 1024,2048; thorough +1032,1536,3072,4096) x hash{SHA-1,256,384,512} x identifier form{NULL,no NULL} x every byte position of EM x 7 replacement values; structural variants (shortened/short padding, 00 inside padding, missing separator, shifted T, foreign identifier, wrong digest, block types 00/02, sig+N); single-bit flips of signature and body (quick: 1024-bit key; thorough: 2048 too); every signature-algorithm label 0..16,99,-1 x EM hash; chain relations {pool root (2 roots), foreign CA, self-signed, expired, not yet valid, missing intermediate}; device key types {RSA, P-256, Ed25519}; RSA public exponents {3,5,17,257,65539} (those invertible for the fixture primes) on the 1024-bit modulus (thorough: 2048 too), interleaved with the 65537 cases; one long-lived Attestor used before and after a device certificate's expiry / start of validity (real time, 5.5 s). 192 ordered pairs on one goroutine (6 predecessor kinds incl. non-RSA device keys x 4 hashes x {valid, signed over previous body || body}). Oracle: independent predicate on sig^e mod N. non-trivial = accepted attestation; distinct by (size,label,chain,variant)")
 	c.Assume("crypto/x509 chain building is trusted", "modular exponentiation by math/big")
 	t0 := time.Now()
 	c06W = c06Build()
@@ -501,6 +501,42 @@ func checkC06(c *ev.Ctx) {
 		}
 	}
 	c06Lifetime(c, tbs)
+	// ordered pairs on one goroutine, before the parallel phase: every predecessor kind (non-RSA device keys with a valid
+	// chain, accepted and rejected RSA verifications, a foreign chain) directly followed by a verification with the same
+	// hash - a correctly signed certificate, and one signed over H(previous body || body), which only state carried over
+	// from the predecessor could make acceptable
+	{
+		prevTBS := []byte("body of the slot certificate attested just before, another one entirely")
+		prevHex := hex.EncodeToString(prevTBS)
+		np := 0
+		for _, h := range c06Hashes {
+			base := c06EM(128, h, 0, prevTBS)
+			bad := append([]byte{}, base...)
+			bad[9] = 0
+			preds := []c06Case{
+				{KeyType: "p256", Chain: "root", Label: int(labelOf[h]), TBS: prevHex, Sig: sigAnyOf(64), Note: "predecessor: P-256 device key"},
+				{KeyType: "ed25519", Chain: "root", Label: int(labelOf[h]), TBS: prevHex, Sig: sigAnyOf(64), Note: "predecessor: Ed25519 device key"},
+				{Bits: 1024, Chain: "root", Label: int(labelOf[h]), TBS: prevHex, EM: hex.EncodeToString(base), Note: "predecessor: accepted"},
+				{Bits: 1024, Chain: "root", Label: int(labelOf[h]), TBS: prevHex, EM: hex.EncodeToString(bad), Note: "predecessor: bad padding"},
+				{Bits: 1024, Chain: "otherca", Label: int(labelOf[h]), TBS: prevHex, EM: hex.EncodeToString(base), Note: "predecessor: foreign chain"},
+				{Bits: 2048, Chain: "root", Label: 99, TBS: prevHex, EM: hex.EncodeToString(c06EM(256, h, 1, prevTBS)), Note: "predecessor: unknown label"},
+			}
+			for _, pred := range preds {
+				for form := 0; form < 2; form++ {
+					succs := []c06Case{
+						{Bits: 1024, Chain: "root", Label: int(labelOf[h]), TBS: tbsHex, EM: hex.EncodeToString(c06EM(128, h, form, tbs)), Note: "valid, right after a " + pred.Note},
+						{Bits: 1024, Chain: "root", Label: int(labelOf[h]), TBS: tbsHex, EM: hex.EncodeToString(c06EM(128, h, form, append(append([]byte{}, prevTBS...), tbs...))), Note: "signed over previous body || body, right after a " + pred.Note},
+					}
+					for _, sc := range succs {
+						c06Run(c, pred)
+						c06Run(c, sc)
+						np++
+					}
+				}
+			}
+		}
+		c.Set("ordered_pairs_on_one_goroutine", np)
+	}
 	c.Set("cases", len(cases))
 	c.Set("case_gen_s", time.Since(t0).Seconds())
 	c.ParMap(len(cases), func(i int) {
@@ -517,3 +553,5 @@ func checkC06(c *ev.Ctx) {
 		}
 	})
 }
+
+func sigAnyOf(n int) string { return hex.EncodeToString(bytes.Repeat([]byte{0x5a}, n)) }
